@@ -10,6 +10,9 @@ CHECKS = {
          'Generated-input search: (min,max,bits,symmetry,dtype,shape) over the whole finite float32/float64 range incl. degenerate/huge/tiny, random tensors of rank 0..4 with any quantized dimension, every 4/8-bit code against a grid of library-produced parameters; explicit oracles (range, zero representable, coverage, half-step round trip, monotonicity, channel independence, code identity). Held on all cases explored; not a proof.',
          'Trusts numpy float semantics and an independent float64 dequantizer; tolerance half a step + 1% of a step for float32 rounding.', 'DESIGN.md 4 C17'),
 }
+CHECKS['C11'] = ('exhaustive enumeration of short add-histories + Hypothesis-generated add/load histories, compared with a reference resolver',
+  'Model-based testing against an independent reference resolver: all add-histories up to length 2 (quick) / 3 (thorough) over a 5x4x6 alphabet enumerated completely, plus generated histories up to 30 steps (add with enum- or string-valued arguments, load of rule lists, load of the exported recipe), queried on a 6x8 (operator, scope) grid after every step; refused adds must raise ValueError and leave the state unchanged. Exhaustive only within the stated alphabet and length bound.',
+  'The support predicate is taken from the library (check_op_quantization_config); Python re semantics trusted.', 'DESIGN.md 4 C11')
 NOT_APPLICABLE = {}
 
 def main():
